@@ -452,6 +452,60 @@ struct Plan {
     exhaustive_by_construction: bool,
 }
 
+/// Shape enumeration (see the plan): (id, text).
+fn shape_sources() -> Vec<(String, String)> {
+    let mut out = vec![];
+    // multi-line strings
+    let firsts = ["a", "\u{e9}", "\u{65e5}\u{672c}", "\u{1f600}"];
+    for margin in 0..=3usize {
+        for indent in 0..=4usize {
+            for tab in [false, true] {
+                if tab && indent == 0 {
+                    continue;
+                }
+                for (fi, first) in firsts.iter().enumerate() {
+                    for two in [false, true] {
+                        let ind: String = if tab { format!("\t{}", " ".repeat(indent - 1)) } else { " ".repeat(indent) };
+                        let mut body = format!("{}{}x\n", ind, first);
+                        if two {
+                            body.push_str(&format!("{}{}{}\n", " ".repeat(margin), first, first));
+                        }
+                        let lit = format!("\"\"\"\n{}{}\"\"\"", body, " ".repeat(margin));
+                        let id = format!("shape/mlstr/m{}i{}{}f{}{}", margin, indent, if tab { "t" } else { "" }, fi, if two { "+" } else { "" });
+                        out.push((format!("{}/term", id), format!("x = {}", lit)));
+                        out.push((format!("{}/pattern", id), format!("x = \"a\", x ~> ={}", lit)));
+                    }
+                }
+            }
+        }
+    }
+    // type expressions with alias spreads
+    let aliases = [
+        "'p = Point['int, 'int]",
+        "'p = [x: 'int, y: 'bin]",
+        "'p = A | Point['int]",
+        "'p = A[x: 'int] | B[x: 'int, y: 'int]",
+        "'p = (x: 'int)",
+        "'p = 'int",
+        "'p = Nil | Cons['int, ^]",
+    ];
+    let exprs = [
+        "'p", "['p]", "[k: 'p]", "(k: 'p)", "A(k: 'p)", "'p | []", "#'p -> 'p", "@'p", "(@'p -> 'int)",
+        "[...'p]", "[...'p, z: 'int]", "[z: 'int, ...'p]", "A[...'p, z: 'int]", "(...'p)", "(...'p, z: 'int)", "(z: 'int, ...'p)",
+        "A(...'p, z: 'int)", "'p[..., z: 'int]", "'p[...]", "('p & (z: 'int))", "[...'p, ...'p]",
+    ];
+    for (ai, a) in aliases.iter().enumerate() {
+        for (ei, e) in exprs.iter().enumerate() {
+            let id = format!("shape/type/a{}e{}", ai, ei);
+            out.push((format!("{}/alias", id), format!("{}\n'q = {}\n0", a, e)));
+            out.push((format!("{}/param", id), format!("{}\nf = #({}) {{ 1 }}", a, e)));
+            out.push((format!("{}/pattern", id), format!("{}\nx = 0, x =({})", a, e)));
+            out.push((format!("{}/receive", id), format!("{}\nr = @{{ !#({}) }}", a, e)));
+        }
+    }
+    out
+}
+
 fn ladder_depths(tier: Tier) -> Vec<usize> {
     match tier {
         Tier::Thorough => (1..=100).collect(),
@@ -580,6 +634,23 @@ fn plan(tier: Tier, sources: &[corpus::Source], stats: &corpus::CorpusStats) -> 
             est_cost: batch_cost,
         });
     }
+    // (iv) input shapes the token alphabet cannot spell: multi-line strings at every small
+    // combination of margins / indentation characters / multi-byte first characters, and a small
+    // type-expression grammar with alias spreads. Each is one case (the whole text).
+    let shapes = shape_sources();
+    let shape_count = shapes.len();
+    for chunk in shapes.chunks(200) {
+        let specs: Vec<MutSpec> = chunk
+            .iter()
+            .map(|(id, text)| MutSpec { id: id.clone(), text: text.clone(), cuts: vec![text.len()], positions: vec![] })
+            .collect();
+        planned_cases += specs.len() as u64;
+        mut_units.push(Unit {
+            job: Job::Mut { alphabet: alpha_name.into(), specs },
+            group: "corpus",
+            est_cost: 200.0 * 400.0,
+        });
+    }
     if capped_sources > 0 {
         caps.push(format!(
             "corpus: {} of {} sources capped (quick tier): sources without imports to 24 evenly spaced token positions and 128 evenly spaced prefix cuts, sources with a %import to 8 positions and 48 cuts (plus the cut before every chosen token and the full text)",
@@ -632,6 +703,8 @@ fn plan(tier: Tier, sources: &[corpus::Source], stats: &corpus::CorpusStats) -> 
         "corpus": stats,
         "corpus_mutations": "for every source: every prefix at char-boundary byte granularity (superset of token-boundary prefixes; a cut inside a multi-byte character is not valid UTF-8 and cannot be passed to parse(&str)), every single-token deletion, duplication, and substitution by each alphabet token; tokens by a lossless lexer that does not treat strings/comments specially",
         "corpus_planned_cases": planned_cases,
+        "shape_sources": shape_count,
+        "shape_sources_note": "multi-line strings: closing margin 0..=3 x content indent 0..=4 (spaces, or a tab first) x first content character from {a, e-acute, a CJK character, an emoji} x one or two content lines x term / pattern position; type expressions: 7 alias definitions x 21 type expressions using the alias (tuples, partials, unions, functions, processes, spreads with and without further fields) x 4 uses (alias definition, function parameter, match pattern, receive type)",
         "ladder_families": FAMILIES.iter().map(|f| f.name).collect::<Vec<_>>(),
         "ladder_depths": ns,
         "max_nesting": 100,
